@@ -298,3 +298,43 @@ theorem pruneList_length (S : List (Nat × Bool)) (ids : Nat → Nat) (cm : Nat 
   | k, _ :: ns => by simp [pruneList, pruneList_length S ids cm (k + 1) ns]
 
 end Prog
+
+namespace Routes
+open BM4 Prog
+
+/-- what `routeP` returns: the re-inferred arrows, one value per remaining witness node, each of
+its node's re-inferred target type (`Props.C12.finalize_pruned_ok_or_error_partial`) -/
+theorem finalize_pruned_ok_or_error_core {jt : JetTypes} {leak : Bool} {p : Plan} {program : Bool}
+    {cand : Nat → Option Val} {c : Cut} {ar' : Arrows} {r' : Witnesses}
+    (h : routeP jt leak p program cand c = .ok ar' r') :
+    inferCut jt leak p program c = .ok ar' ∧ Covers ((witnessIdx p).filter c.keep) r' ∧
+      WitnessTyped ar' r' := by
+  unfold routeP at h
+  cases hu : routeU jt p program cand with
+  | ok ar r =>
+    rw [hu] at h
+    simp only at h
+    obtain ⟨_, hf⟩ := routeU_ok hu
+    have hcov := (convertAll_spec hf).1
+    cases hi : inferCut jt leak p program c with
+    | ok ar0 =>
+      rw [hi] at h
+      simp only at h
+      cases hp : pruneValues ar0 c.keep r with
+      | none => rw [hp] at h; cases h
+      | some r0 =>
+        rw [hp] at h
+        simp only [Outcome.ok.injEq] at h
+        obtain ⟨rfl, rfl⟩ := h
+        obtain ⟨h1, h2⟩ := pruneValues_spec hp
+        exact ⟨rfl, by unfold Covers at hcov ⊢; rw [h1, hcov], h2⟩
+    | typeError => rw [hi] at h; cases h
+    | occurs => rw [hi] at h; cases h
+    | badPlan => rw [hi] at h; cases h
+    | fuel => rw [hi] at h; cases h
+  | err => rw [hu] at h; cases h
+  | illTyped => rw [hu] at h; cases h
+  | fuel => rw [hu] at h; cases h
+  | panic => rw [hu] at h; cases h
+
+end Routes
